@@ -201,6 +201,29 @@ def run(c, prog):
     c.floor(R, n_arms, 24, "rotation arms")
     c.sample({"rule": R, "formula": f"id = {A}*nid(col x) + nid(col y) + {B}", "normal_ids": {"axis_position": axis_pos, "negative_offset": neg_off}, "arms": n_arms})
 
+    # --- the third axis: the id is derived from columns x and y only, so the z column must be compared with the candidate's
+    ok = False
+    zl = None
+    for st in core.walk_lets(to.body):
+        if st["pat"].get("name") == "z_id":
+            zl = st["pat"]["lid"]
+    for n in core.walk_fn(to):
+        if n.get("k") == "If":
+            cnd = core.strip(n["c"])
+            if cnd.get("k") == "Binary" and cnd["op"] == "==":
+                sides = [core.strip(cnd["l"]), core.strip(cnd["r"])]
+                uses_z = any(x.get("lid") == zl for sd in sides for x in core.walk(sd)) and zl is not None
+                cand = any(x.get("k") == "Call" and (core.callee(x) or "").endswith("Matrix3::from_basic_rotation_id") for sd in sides for x in core.walk(sd))
+                fp = " ".join(core.fingerprint(sd, 8) for sd in sides)
+                if uses_z and cand and ".z" in fp and "to_normal_id" in fp:
+                    t_some = any(x.get("k") == "Call" and x["f"].get("def") == "core::option::Option::Some" for x in core.walk(n["t"]))
+                    f_none = "f" in n and any(x.get("k") == "Path" and x.get("def") == "core::option::Option::None" for x in core.walk(n["f"]))
+                    ok = t_some and f_none
+    if ok:
+        c.ok(R, "to_basic_rotation_id:third-axis-check")
+    else:
+        c.violation(R, "to_basic|z-check", "to_basic_rotation_id derives the id from the x and y columns only; without comparing the z column with the candidate rotation's, a matrix with axis-aligned columns that is not that rotation (a reflection such as diag(1,1,-1), or a collapsed basis) is written as a basic id and read back as a different matrix", to.sp, instance="to_basic_rotation_id:third-axis-check")
+
     # --- LINT: two-sided epsilon
     lint_epsilon(c, prog)
 
